@@ -307,6 +307,7 @@ func buildWorld(r *vkit.Run, dbKind string, round int, tweak ...func(*stack.Opti
 	addProf("pauto", false, true)
 	addProf("pautodel", true, true)
 	addProf("pautodet", false, true)
+	addProf("plast", false, false)
 
 	const pwChars = "abcdefghijklmnopqrstuvwxyzABCDEFGHIJKLMNOPQRSTUVWXYZ0123456789:@/ %"
 	n := 0
@@ -376,6 +377,8 @@ func buildWorld(r *vkit.Run, dbKind string, round int, tweak ...func(*stack.Opti
 	newDev("pauto", akOn, stLive, "hon", "tv2")
 	newDev("pautodel", akOff, stDeleted, "hdel", "old-tv")
 	newDev("pautodet", akOn, stDetached, "hdet", "old-pad")
+	// The only device of its profile: after the detach the profile has none.
+	newDev("plast", akOff, stDetached, "last", "")
 	_ = keeper
 	// Devices with authentication enabled and an unusable stored hash.
 	for _, bh := range badHashes {
@@ -462,6 +465,12 @@ func buildWorld(r *vkit.Run, dbKind string, round int, tweak ...func(*stack.Opti
 		}
 		if stg.calls != syncs {
 			return nil, fmt.Errorf("storage was asked %d times, want %d", stg.calls, syncs)
+		}
+		w.db = &recDB{inner: db, w: w}
+	case "backend":
+		db, err := newBackendDB(w, profs)
+		if err != nil {
+			return nil, err
 		}
 		w.db = &recDB{inner: db, w: w}
 	case "restored":
